@@ -394,6 +394,7 @@ impl Ctx {
         }
 
         let next = AtomicU64::new(0);
+        let batch: u64 = (n / (self.threads.max(1) as u64 * 4)).clamp(1, 8);
         let threads = if serial { 1 } else { self.threads.max(1).min(n.max(1) as usize) };
         if threads <= 1 {
             let mut l = Local::default();
@@ -415,11 +416,11 @@ impl Ctx {
                             break;
                         }
                         // grab small batches to reduce contention
-                        let start = next.fetch_add(8, Ordering::Relaxed);
+                        let start = next.fetch_add(batch, Ordering::Relaxed);
                         if start >= n {
                             break;
                         }
-                        for idx in start..(start + 8).min(n) {
+                        for idx in start..(start + batch).min(n) {
                             run_one(idx, &mut l);
                         }
                     }
